@@ -517,6 +517,95 @@ func vC14SpecSx(v vC14Verdict) (vSx, vSx) {
 	return vLs(evs), o
 }
 
+// direct oracle for the write-back: independent of the error value the read returned and of the
+// payload of the offending frame.  The bytes written must be: one well-formed Pong (FIN, RSV 0,
+// masked iff client, <= 125 bytes) per Ping received before the failure, same payload, same order;
+// then for a rule violation (reserved bits / opcodes, fragmented or oversized control frame,
+// continuation without a started message, new data frame inside a fragmented message, wrong
+// masking, invalid close code, non-UTF-8 close reason, 64-bit length with the top bit set) EXACTLY
+// ONE well-formed Close frame with status 1002 and a UTF-8 reason; for the limit error exactly one
+// Close 1009; for a peer Close exactly one Close echoing its status (empty body when it had none);
+// for a cut stream nothing (or, when the cut is inside a header that already breaks a rule, one
+// Close 1002); and nothing after the Close.
+func vC14WriteBack(k vC14Case, run vC14Run, v vC14Verdict, pongs [][]byte) (string, string) {
+	var gotPongs [][]byte
+	var closes [][]byte
+	for i, h := range run.writes {
+		if !h.fin || h.rsv != 0 || h.masked == k.server || h.length > 125 || h.ext {
+			return "written-frame-valid", fmt.Sprintf("written frame %d: fin=%v rsv=%d masked=%v len=%d ext=%v", i, h.fin, h.rsv, h.masked, h.length, h.ext)
+		}
+		switch h.op {
+		case 10:
+			if len(closes) > 0 {
+				return "nothing-after-close", "pong written after the close frame"
+			}
+			gotPongs = append(gotPongs, run.wpay[i])
+		case 8:
+			closes = append(closes, run.wpay[i])
+		default:
+			return "written-frame-valid", fmt.Sprintf("unexpected opcode %d written", h.op)
+		}
+	}
+	if len(gotPongs) != len(pongs) {
+		return "ping-pong", fmt.Sprintf("%d pongs written, %d pings received", len(gotPongs), len(pongs))
+	}
+	for i := range pongs {
+		if !bytes.Equal(gotPongs[i], pongs[i]) {
+			return "ping-pong", fmt.Sprintf("pong %d payload %x, ping payload %x", i, gotPongs[i], pongs[i])
+		}
+	}
+	if len(closes) > 1 {
+		return "nothing-after-close", fmt.Sprintf("%d close frames written", len(closes))
+	}
+	status := -2 // no close written
+	if len(closes) == 1 {
+		status = -1 // close without status
+		if len(closes[0]) == 1 {
+			return "written-frame-valid", "close frame with a 1-byte body written"
+		}
+		if len(closes[0]) >= 2 {
+			status = int(closes[0][0])<<8 | int(closes[0][1])
+			if !vC14Utf8(closes[0][2:]) {
+				return "written-frame-valid", fmt.Sprintf("close reason written is not UTF-8: %x", closes[0][2:])
+			}
+		}
+	}
+	want := func(code int, oracle, what string) (string, string) {
+		if status != code {
+			got := fmt.Sprintf("close %d", status)
+			if status == -2 {
+				got = "NO close frame"
+			} else if status == -1 {
+				got = "a close frame without status"
+			}
+			return oracle, fmt.Sprintf("%s: the endpoint must write exactly one Close %d, it wrote %s", what, code, got)
+		}
+		return "", ""
+	}
+	switch v.outcome {
+	case vC14OViolation:
+		return want(1002, "close-1002", "rule violation")
+	case vC14OTooBig:
+		if k.isPat && status == -2 {
+			return "", "" // see the read-limit note in vC14Judge: abandoned messages, 2^63 bound only
+		}
+		return want(1009, "close-1009", "message over the limit")
+	case vC14OClosed:
+		if fo, fd := want(v.code, "close-echo", fmt.Sprintf("peer close %d", v.code)); fo != "" {
+			return fo, fd
+		}
+		if v.code >= 0 && len(closes[0]) != 2 {
+			return "close-echo", "echoed close carries a reason"
+		}
+	case vC14OCut:
+		if status == -2 || (v.cutInHdr && status == 1002) {
+			return "", ""
+		}
+		return "cut-is-error", fmt.Sprintf("stream cut but close %d written", status)
+	}
+	return "", ""
+}
+
 // direct oracle: judge the implementation's run against the RFC receiver's verdict.
 func vC14Judge(k vC14Case, run vC14Run, v vC14Verdict) (string, string) {
 	if run.panicked {
@@ -574,35 +663,15 @@ func vC14Judge(k vC14Case, run vC14Run, v vC14Verdict) (string, string) {
 			}
 		}
 	}
-	// written frames: well-formed control frames, pongs echo ping payloads in order, then at most one close
-	var gotPongs [][]byte
+	// what the endpoint wrote back, judged from the written bytes and the RFC receiver's verdict alone
+	if fo, fd := vC14WriteBack(k, run, v, pongs); fo != "" {
+		return fo, fd
+	}
 	var closes [][]byte
 	for i, h := range run.writes {
-		if !h.fin || h.rsv != 0 || h.masked == k.server || h.length > 125 {
-			return "written-frame-valid", fmt.Sprintf("written frame %d: fin=%v rsv=%d masked=%v len=%d", i, h.fin, h.rsv, h.masked, h.length)
-		}
-		switch h.op {
-		case 10:
-			if len(closes) > 0 {
-				return "nothing-after-close", "pong written after the close frame"
-			}
-			gotPongs = append(gotPongs, run.wpay[i])
-		case 8:
+		if h.op == 8 {
 			closes = append(closes, run.wpay[i])
-		default:
-			return "written-frame-valid", fmt.Sprintf("unexpected opcode %d written", h.op)
 		}
-	}
-	if len(gotPongs) != len(pongs) {
-		return "ping-pong", fmt.Sprintf("%d pongs written, %d pings received", len(gotPongs), len(pongs))
-	}
-	for i := range pongs {
-		if !bytes.Equal(gotPongs[i], pongs[i]) {
-			return "ping-pong", fmt.Sprintf("pong %d payload %x, ping payload %x", i, gotPongs[i], pongs[i])
-		}
-	}
-	if len(closes) > 1 {
-		return "nothing-after-close", "more than one close frame written"
 	}
 	if len(run.errs) == 0 {
 		return "ends-in-error", "read loop ended without an error"
@@ -779,8 +848,14 @@ func vC14BadUtf8(r *vRng) []byte {
 		{0xF0, 0x80, 0x80, 0x80}, {0xF0, 0x8F, 0xBF, 0xBF}, {0xF4, 0x90, 0x80, 0x80}, {0xF5, 0x80, 0x80, 0x80}, {0xFF}, {0x80}, {0xBF},
 		{0xC2}, {0xE1, 0x80}, {0xF1, 0x80, 0x80}, {0xC2, 0x41}, {0xE1, 0x80, 0x41}, {0xF1, 0x80, 0x80, 0x41}, {0xF8, 0x88, 0x80, 0x80, 0x80}}
 	s := seqs[r.intn(len(seqs))]
-	pre := vC14Text(r, r.intn(6))
-	post := vC14Text(r, r.intn(6))
+	pre := vC14Text(r, r.pickInt(0, 1, 5, 5, 30, 60, 90))
+	post := vC14Text(r, r.pickInt(0, 1, 5, 5, 30, 60))
+	if len(pre)+len(s)+len(post) > 123 { // keep it a legal control frame: the reason is what is wrong
+		if len(pre) > 123-len(s) {
+			pre = pre[:123-len(s)]
+		}
+		post = post[:123-len(s)-len(pre)]
+	}
 	return append(append(pre, s...), post...)
 }
 
@@ -1055,6 +1130,153 @@ func vC14Fixed() int64 {
 	return 1
 }
 
+// Close frames with a reason of EVERY length 0..123, both roles: valid reasons (ASCII, multi-byte),
+// invalid UTF-8 at the start / middle / end, all-invalid, and invalid status codes with reasons of
+// every length; bare, after a Ping (a Pong is owed first), and inside a fragmented message.
+func vC14CloseSweep(emit func(c vSx)) {
+	bad := [][]byte{{0xff}, {0xc0, 0x80}, {0xed, 0xa0, 0x80}, {0xf4, 0x90, 0x80, 0x80}, {0xe2, 0x82}, {0x80}}
+	for _, server := range []bool{false, true} {
+		r := &vRng{s: 0xC14}
+		for n := 0; n <= 123; n++ {
+			var reasons [][]byte
+			ascii := make([]byte, n)
+			for i := range ascii {
+				ascii[i] = byte('a' + i%26)
+			}
+			reasons = append(reasons, ascii)
+			multi := []byte{}
+			for len(multi)+3 <= n {
+				multi = append(multi, 0xe2, 0x82, 0xac)
+			}
+			for len(multi) < n {
+				multi = append(multi, 'x')
+			}
+			reasons = append(reasons, multi)
+			for bi, b := range bad {
+				if len(b) > n {
+					continue
+				}
+				for _, pos := range []int{0, (n - len(b)) / 2, n - len(b)} {
+					x := append([]byte{}, ascii...)
+					copy(x[pos:], b)
+					reasons = append(reasons, x)
+				}
+				if bi == 0 && n > 0 {
+					all := make([]byte, n)
+					for i := range all {
+						all[i] = 0xff
+					}
+					reasons = append(reasons, all)
+				}
+			}
+			for ri, reason := range reasons {
+				codes := []int{1000}
+				if ri == 0 {
+					codes = []int{1000, 4999, 1005, 1006, 1015, 999, 2999, 5000}
+				}
+				for _, code := range codes {
+					body := append([]byte{byte(code >> 8), byte(code)}, reason...)
+					cl := vC14Ser(vC14Mk(r, server, 8, true, body))
+					cl = cl[:len(cl):len(cl)]
+					ping := vC14Ser(vC14Mk(r, server, 9, true, []byte("pp")))
+					frag := vC14Ser(vC14Mk(r, server, 1, false, []byte("ab")))
+					var wire []byte
+					switch (n + ri + code) % 3 {
+					case 0:
+						wire = cl
+					case 1:
+						wire = append(append([]byte{}, ping...), cl...)
+					default:
+						wire = append(append(append([]byte{}, frag...), ping...), cl...)
+					}
+					emit(vL(vZ(vC14Fixed()), vBool(server), vZ(0), vZ(1), vB(wire)))
+				}
+			}
+		}
+	}
+}
+
+// every first-violation class of the property, each bare / after a Ping / inside a fragmented message
+// after a Ping, both roles, payload sizes 0 and 125 where the class allows, with and without a limit
+func vC14ViolationSweep(emit func(c vSx)) {
+	for _, server := range []bool{false, true} {
+		r := &vRng{s: 0x1002}
+		mk := func(op int, fin bool, n int) vC14Frame { return vC14Mk(r, server, op, fin, r.bytes(n)) }
+		var bads []vC14Frame
+		for _, n := range []int{0, 125} {
+			for rsv := 1; rsv <= 7; rsv++ {
+				for _, op := range []int{1, 0, 9, 8} {
+					f := mk(op, true, n)
+					if op == 8 && n >= 2 {
+						f.payload[0], f.payload[1] = 3, 232
+					}
+					f.rsv = rsv
+					bads = append(bads, f)
+				}
+			}
+			for _, op := range []int{3, 4, 5, 6, 7, 11, 12, 13, 14, 15} {
+				bads = append(bads, mk(op, true, n), mk(op, false, n))
+			}
+			for _, op := range []int{8, 9, 10} {
+				bads = append(bads, mk(op, false, n)) // fragmented control frame
+			}
+			for _, op := range []int{1, 2, 0, 9, 10, 8} {
+				f := mk(op, true, n) // wrong masking for the role
+				f.masked = !f.masked
+				if f.masked {
+					f.key = r.bytes(4)
+				}
+				bads = append(bads, f)
+			}
+		}
+		for _, op := range []int{8, 9, 10} { // oversized control frames, 16- and 64-bit forms
+			for _, n := range []int{126, 127, 200} {
+				f := mk(op, true, n)
+				f.form = 16
+				bads = append(bads, f)
+				g := mk(op, true, n)
+				g.form = 64
+				bads = append(bads, g)
+			}
+		}
+		for _, op := range []int{0, 1, 2} { // top bit of a 64-bit length
+			for _, l := range []uint64{1 << 63, 1<<63 + 5, 0xffffffffffffffff} {
+				f := mk(op, true, 5)
+				f.form, f.length = 64, l
+				bads = append(bads, f)
+			}
+		}
+		ping := vC14Ser(mk(9, true, 3))
+		frag := vC14Ser(mk(2, false, 4))
+		for _, limit := range []int64{0, 1000} {
+			for _, f := range bads {
+				b := vC14Ser(f)
+				emit(vL(vZ(vC14Fixed()), vBool(server), vZ(limit), vZ(1), vB(b)))
+				emit(vL(vZ(vC14Fixed()), vBool(server), vZ(limit), vZ(1), vB(append(append([]byte{}, ping...), b...))))
+				emit(vL(vZ(vC14Fixed()), vBool(server), vZ(limit), vZ(1), vB(append(append(append([]byte{}, frag...), ping...), b...))))
+			}
+			// sequencing: continuation without a started message; new data frame inside a fragmented message
+			for _, n := range []int{0, 125} {
+				for _, fin := range []bool{true, false} {
+					emit(vL(vZ(vC14Fixed()), vBool(server), vZ(limit), vZ(1), vB(append(append([]byte{}, ping...), vC14Ser(mk(0, fin, n))...))))
+					for _, op := range []int{1, 2} {
+						emit(vL(vZ(vC14Fixed()), vBool(server), vZ(limit), vZ(1), vB(append(append(append([]byte{}, frag...), ping...), vC14Ser(mk(op, fin, n))...))))
+					}
+				}
+			}
+		}
+		// the limit error: 1009 after the pongs owed, for every way of crossing the limit
+		for _, limit := range []int64{1, 4, 5, 128} {
+			for _, n := range []int{int(limit) + 1, int(limit) * 2, 70000} {
+				big := mk(2, true, n)
+				emit(vL(vZ(vC14Fixed()), vBool(server), vZ(limit), vZ(1), vB(append(append([]byte{}, ping...), vC14Ser(big)...))))
+				cont := mk(0, true, n)
+				emit(vL(vZ(vC14Fixed()), vBool(server), vZ(limit), vZ(1), vB(append(append(append([]byte{}, frag...), ping...), vC14Ser(cont)...))))
+			}
+		}
+	}
+}
+
 // a session (no limit) in which the application abandons some of the messages
 func vC14GenPattern(r *vRng) vSx {
 	var c vSx
@@ -1081,7 +1303,8 @@ func vC14GenPattern(r *vRng) vSx {
 func TestVerifC14(t *testing.T) {
 	k := vNewKit(t, "C14")
 	defer k.close()
-	runOne := func(c vSx) {
+	var runOne func(c vSx)
+	run1 := func(c vSx) {
 		kc, ok := vC14Decode(c)
 		if !ok {
 			k.record(c, vL(vZ(-1)), false)
@@ -1103,6 +1326,8 @@ func TestVerifC14(t *testing.T) {
 			k.fail(idx, c.size(), fo, "", fd)
 		}
 	}
+	// a panic of the driver itself on some case is recorded as an oracle failure, not a crash
+	runOne = func(c vSx) { k.safely(c, func() { run1(c) }) }
 	if k.replay != nil {
 		runOne(*k.replay)
 		return
@@ -1110,6 +1335,9 @@ func TestVerifC14(t *testing.T) {
 	for _, c := range k.corpus() {
 		runOne(c)
 	}
+	// 0. every first-violation class and every close-reason length, deterministically
+	vC14ViolationSweep(func(c vSx) { k.count("kind", "violation-sweep"); runOne(c) })
+	vC14CloseSweep(func(c vSx) { k.count("kind", "close-sweep"); runOne(c) })
 	// 1. abstract alphabet, exhaustively
 	depth, full64 := 3, 1
 	if k.thorough() {
